@@ -26,6 +26,7 @@ def be(n, w): return [(n >> (8 * (w - 1 - i))) & 0xff for i in range(w)]
 def le(n, w): return [(n >> (8 * i)) & 0xff for i in range(w)]
 CONCRETE_BLOBS = [False]
 def sym(st, name, n):
+    if CONCRETE_BLOBS[0] == 'zero_trackdata' and name == 'trackData': return [0] * n      # a track with no sample rate / count / loudness / key
     if CONCRETE_BLOBS[0]: return [0x40 if i % 8 == 0 else 0 for i in range(n)]     # fixed content: 2.0-ish doubles, never the -1 sentinel
     return [st.new_input('%s[%d]' % (name, i), 8, 'env') for i in range(n)]
 def framed(payload): return be(len(payload), 4) + payload
@@ -75,6 +76,7 @@ def install_abstract_v2(eng, fail='none', rows_mode='one', null='never', row_exi
         return 'int'
     def rows(st, s_):
         if 'COUNT(' in s_.sql.upper(): return 1
+        if 'FROM Information' in s_.sql: return 1        # a library always has exactly one Information row
         if rows_mode == 'one': return 1
         return None
     def column(st, s_, col, want):
